@@ -1,5 +1,247 @@
 /-
-C11 — property theorems (stub: no theorem stated yet, so no obligation is counted).
+C11 — Decoders are total: any bytes give a value or an error, never a panic or a hang; a value that
+was returned without error can be passed to the library's accessors without a panic.
+PROPERTY THEOREMS ONLY.
+
+What is proved here, for ALL byte strings (no bound on length except where a Go `int32` in the format
+itself bounds it — stated explicitly), about the models of Hts.Model.Decoders, which mirror the Go
+code with the repairs fixes/C11-*.diff at indexing granularity (every index/slice/make/explicit panic
+of the modelled functions is a partial operation of the model):
+
+  D_total   : the decoder model never yields `panic`         (sam.atoi, sam.ParseCigar, sam.ParseAux
+              for every behaviour of strconv, bam.parseAux incl. termination of its loop)
+  A_safe    : a value the decoder model returned makes no accessor model yield `panic`
+              (CIGAR: Consumes/Lengths/End/Len/Bin/IsValid/String; aux: Tag/Type/Kind/Value/String
+              and the SAM formatter)
+
+The other decoders of the library (BGZF, BAM record layout, SAM line/header text, binary header,
+index readers, FAI, CRAM) are covered by the panic-site inventory + search only; see
+notes/reports/C11.md.
 -/
+import Hts.Lemmas.Decoders
+import Hts.Lemmas.DecodersIndex
+import Hts.Lemmas.DecodersHeader
 namespace Hts.Props.C11
+open Hts.Model.Decoders
+open Hts.Model.Decoders.Outcome (ok err)
+open Hts.Model.Coord (CigarOp)
+
+/-! ### sam.atoi, sam.ParseCigar -/
+
+/-- `sam.atoi` never panics (`powers[k-i]` stays inside the 13-entry table because longer inputs
+are rejected first) -/
+theorem atoi_total (b : Bytes) : (atoi b).isPanic = false := by
+  rcases atoi_spec b with h | ⟨r, h, _⟩ <;> rw [h] <;> rfl
+
+/-- what `atoi` returns is never negative, which is what keeps `NewCigarOp` from panicking -/
+theorem atoi_nonneg (b : Bytes) (n : Int) (h : atoi b = ok n) : 0 ≤ n := by
+  rcases atoi_spec b with h' | ⟨r, h', hr⟩
+  · rw [h'] at h; cases h
+  · rw [h'] at h; cases h; exact hr
+
+/-- `sam.ParseCigar` never panics, for every byte string: not in `atoi`, not in `NewCigarOp` (the
+operation-splitting loop is entered with `n ≥ 0` only), and a digit run without an operation is an
+error (repair fixes/C11-2) -/
+theorem parseCigar_total (b : Bytes) : (parseCigar b).isPanic = false := by
+  unfold parseCigar
+  split
+  · rfl
+  · exact parseOps_total b.length b [] (Nat.le_refl _)
+
+/-! ### CIGAR accessors: safe on EVERY CIGAR (so on every one ParseCigar or a BAM record yields) -/
+
+/-- `CigarOpType.Consumes` is total on all 2^32 operation words (repair fixes/C11-1) -/
+theorem consumes_total (t : Nat) : (consumesGo t).isPanic = false := by
+  rw [consumesGo_eq]; rfl
+
+/-- the two models of `Consumes` (this one with explicit indexing, Hts.Model.Coord's used by C16) agree -/
+theorem consumes_models_agree (t : Nat) : consumesGo t = ok v ↔ Hts.Model.Coord.consumes t = some v := by
+  rw [consumesGo_eq]
+  unfold Hts.Model.Coord.consumes
+  constructor
+  · intro h; cases h; rfl
+  · intro h; cases h; rfl
+
+/-- `CigarOpType.String` indexes `cigarOps` inside its 11 entries for every type -/
+theorem opString_total (t : Nat) : (opString t).isPanic = false := by
+  obtain ⟨c, h⟩ := Hts.Model.Decoders.opString_total t
+  rw [h]; rfl
+
+/-- `Cigar.IsValid`: `c[i-1]` and `c[i+1]` are only evaluated strictly inside the CIGAR -/
+theorem isValid_total (c : List CigarOp) (length : Int) : (cigarIsValidGo c length).isPanic = false :=
+  cigarIsValidGo_total c length
+
+/-- `Cigar.Lengths`, `Record.End`, `Record.Len`, `Record.Bin`, `Cigar.IsValid` (the models C16 proves
+correct on the standard operations) return a value for EVERY CIGAR, including operation types 10..15 -/
+theorem coord_accessors_total (u mu : Bool) (pos : Int) (c : List CigarOp) (length : Int) :
+    (Hts.Model.Coord.cigarLengths c).isSome ∧ (Hts.Model.Coord.recordEnd u pos c).isSome ∧
+    (Hts.Model.Coord.recordLen u pos c).isSome ∧ (Hts.Model.Coord.recordBin u mu pos c).isSome ∧
+    (Hts.Model.Coord.cigarIsValid c length).isSome := by
+  obtain ⟨v1, h1⟩ := Hts.Model.Coord.lengthsLoop_total c 0 0
+  obtain ⟨v2, h2⟩ := Hts.Model.Coord.recordEnd_total u pos c
+  obtain ⟨v3, h3⟩ := Hts.Model.Coord.isValidLoop_total c.length c 0 none 0 length
+  refine ⟨?_, ?_, ?_, ?_, ?_⟩
+  · unfold Hts.Model.Coord.cigarLengths; rw [h1]; rfl
+  · rw [h2]; rfl
+  · unfold Hts.Model.Coord.recordLen; rw [h2]; rfl
+  · unfold Hts.Model.Coord.recordBin; rw [h2]; rfl
+  · unfold Hts.Model.Coord.cigarIsValid; rw [h3]; rfl
+
+/-- A_safe for `ParseCigar`: whatever it returns can go through every CIGAR accessor -/
+theorem parseCigar_accessors_safe (b : Bytes) (c : List CigarOp) (_h : parseCigar b = ok c)
+    (u mu : Bool) (pos length : Int) :
+    (cigarIsValidGo c length).isPanic = false ∧ (∀ co ∈ c, (opString co.typ).isPanic = false ∧
+      (consumesGo co.typ).isPanic = false) ∧
+    (Hts.Model.Coord.recordEnd u pos c).isSome ∧ (Hts.Model.Coord.recordBin u mu pos c).isSome ∧
+    (Hts.Model.Coord.cigarLengths c).isSome :=
+  have hc := coord_accessors_total u mu pos c length
+  ⟨isValid_total c length, fun co _ => ⟨opString_total co.typ, consumes_total co.typ⟩, hc.2.1, hc.2.2.2.1, hc.1⟩
+
+/-! ### sam.ParseAux (text) -/
+
+/-- `sam.ParseAux` never panics, for every text and every behaviour of `strconv` (repair fixes/C11-3) -/
+theorem parseAux_total (P : Parsers) (text : Bytes) : (parseAux P text).isPanic = false := by
+  rcases parseAux_spec P text with h | ⟨a, h, _⟩ <;> rw [h] <;> rfl
+
+/-- A_safe for `ParseAux`: the field it returns is well formed, so `Tag`, `Type`, `Kind`, `Value`,
+`String` and the SAM formatter do not panic on it.  (A text below 2 GiB: beyond that an array could
+have 2^31 elements, which `Aux.Value` reads as a negative `int32`.) -/
+theorem parseAux_accessors_safe (P : Parsers) (text a : Bytes) (hlen : text.length < 2147483648)
+    (h : parseAux P text = ok a) : wfAux a = true ∧ auxSweep a = ok () := by
+  rcases parseAux_spec P text with h' | ⟨a', h', hw⟩
+  · rw [h'] at h; cases h
+  · rw [h'] at h; cases h
+    exact ⟨hw hlen, auxSweep_wf _ (hw hlen)⟩
+
+/-! ### bam.parseAux (the aux block of a BAM record) -/
+
+/-- `bam.parseAux` never panics and its loop terminates, for every aux block (repairs fixes/C11-7,
+C11-8, C11-9): every step consumes at least one byte, so `len(aux)+1` iterations always suffice
+(running out of fuel is a `panic` of the model) -/
+theorem parseAuxBam_total (aux : Bytes) : (parseAuxBam aux).isPanic = false := by
+  rcases parseAuxBam_spec aux with h | ⟨l, h, _⟩ <;> rw [h] <;> rfl
+
+/-- A_safe for `bam.parseAux`: every field it hands out is well formed (a BAM record is shorter than
+2^31 bytes: `block_size` is an `int32`), so no aux accessor panics on it -/
+theorem parseAuxBam_accessors_safe (aux : Bytes) (l : List Bytes) (hlen : aux.length < 2147483648)
+    (h : parseAuxBam aux = ok l) : ∀ a ∈ l, wfAux a = true ∧ auxSweep a = ok () := by
+  rcases parseAuxBam_spec aux with h' | ⟨l', h', hw⟩
+  · rw [h'] at h; cases h
+  · rw [h'] at h; cases h
+    intro a ha
+    exact ⟨hw hlen a ha, auxSweep_wf a (hw hlen a ha)⟩
+
+/-- the accessor sweep is safe on EVERY well-formed field (the link used by both decoders) -/
+theorem aux_accessors_safe (a : Bytes) (h : wfAux a = true) : (auxSweep a).isPanic = false := by
+  rw [auxSweep_wf a h]; rfl
+
+/-- and well-formedness is necessary in this sense: fields the unrepaired walker could hand out make
+the accessors panic (a two-byte field, an array with an unknown element type, an array whose count
+exceeds its bytes) -/
+theorem aux_accessors_witness :
+    (auxSweep [88, 0]).isPanic = true ∧ (auxSweep [88, 89, 66, 120, 0, 0, 0, 0]).isPanic = true ∧
+    (auxSweep [88, 89, 66, 115, 2, 0, 0, 0, 1, 2]).isPanic = true := by decide
+
+/-! ### ITF-8 / LTF-8 -/
+
+/-- `itf8.Decode` and `ltf8.Decode` never index beyond the slice: the `len(b) < n` test dominates
+every `b[k]`, `k < n` (the values and round trips are C20's) -/
+theorem itf8_decode_total (b : Bytes) : (decodeIdx "itf8.Decode" itf8Width b).isPanic = false :=
+  decodeIdx_total _ _ b
+
+theorem ltf8_decode_total (b : Bytes) : (decodeIdx "ltf8.Decode" ltf8Width b).isPanic = false :=
+  decodeIdx_total _ _ b
+
+/-- the stream readers of cram (`errorReader.itf8`, `errorReader.ltf8`): `buf[1:n]` and `buf[:n]` stay
+inside the 5- resp. 9-byte array because the announced width is at most 5 resp. 9 -/
+theorem itf8_stream_total (s : Bytes) : (streamRead "cram.errorReader.itf8" itf8Width 5 s).isPanic = false :=
+  streamRead_total _ _ 5 s (fun b0 => by have := itf8Width_bounds b0; omega)
+
+theorem ltf8_stream_total (s : Bytes) : (streamRead "cram.errorReader.ltf8" ltf8Width 9 s).isPanic = false :=
+  streamRead_total _ _ 9 s (fun b0 => by have := ltf8Width_bounds b0; omega)
+
+/-! ### BAI reader -/
+
+/-- `bam.ReadIndex` (with `internal.ReadIndex`, `readIndices`, `readBins`, `readChunks`, `readStats`,
+`readIntervals`) never panics, for every byte string: every `make` is dominated by a sign test
+(repair fixes/C11-11) and `bins[:len(bins)-1]` is only reached with a non-empty `bins` -/
+theorem readBAI_total (s : Bytes) : (readBAI s).isPanic = false := readBAI_total' s
+
+/-- `tabix.ReadFrom` never panics: the name block is only indexed when its length is positive
+(repair fixes/C11-12), and the references are read by the same `internal.ReadIndex` -/
+theorem readTabix_total (s : Bytes) : (readTabix s).isPanic = false := readTabix_total' s
+
+/-! ### SAM header text parsers (indexing only; the meaning of a field is a parameter) -/
+
+/-- the field loop of `headerLine`, `referenceLine`, `readGroupLine`, `programLine` (repair fixes/C11-4):
+`f[2]`, `f[:2]`, `f[3:]` and `fields[1:]` never panic, whatever the per-field action does short of
+panicking itself -/
+theorem headerTagLine_total {σ : Type} (minFields : Nat) (hmin : 1 ≤ minFields)
+    (act : σ → Bytes → Bytes → Outcome σ) (hact : ∀ st tag val, (act st tag val).isPanic = false)
+    (l : Bytes) (st : σ) : (tagLine minFields act l st).isPanic = false :=
+  tagLine_total minFields hmin act hact l st
+
+/-- `commentLine`'s `fields[1]` and the line dispatch of `Header.UnmarshalText` (`l[len(l)-1]`, `l[0]`,
+`l[1:3]`) never panic -/
+theorem headerDispatch_total (l : Bytes) : (lineTag l).isPanic = false ∧ (commentLineM l).isPanic = false :=
+  ⟨lineTag_total l, commentLineM_total l⟩
+
+/-- the `M5` field of an `@SQ` line: `hex.Decode` into the 16-byte array cannot run past it
+(repair fixes/C11-6) -/
+theorem headerMD5_total (val : Bytes) : (md5Field val).isPanic = false := md5Field_total val
+
+/-- `bh.refs[dupID]` in `referenceLine` and `Header.AddReference`: every id in `seenRefs` indexes `refs`,
+and registering a reference keeps it so — for every line, by induction over the header text -/
+theorem headerRefs_invariant (t : RefTable) (hwf : t.wf) (name : Bytes) (same replaceable complete : Bool) :
+    (addRef t name same replaceable complete).isPanic = false ∧
+      ∀ t', addRef t name same replaceable complete = ok t' → t'.wf := by
+  rcases addRef_spec t hwf name same replaceable complete with h | ⟨t', h, hw⟩
+  · rw [h]; exact ⟨rfl, fun _ h' => by cases h'⟩
+  · rw [h]; exact ⟨rfl, fun _ h' => by cases h'; exact hw⟩
+
+/-! ### non-vacuity (tests) -/
+
+/-- a parser instance: decimal digits only -/
+def digitsOnly : Parsers :=
+  { atoi := fun b => if b.all isDigit && !b.isEmpty then some (b.foldl (fun n c => n * 10 + (c.toNat - 48 : Nat)) (0 : Int)) else none
+    parseInt := fun _ b => if b.all isDigit && !b.isEmpty then some (b.foldl (fun n c => n * 10 + (c.toNat - 48 : Nat)) (0 : Int)) else none
+    parseUint := fun _ b => if b.all isDigit && !b.isEmpty then some (b.foldl (fun n c => n * 10 + (c.toNat - 48 : Nat)) (0 : Int)) else none
+    parseFloat32 := fun _ => none }
+
+-- "XY:i:300" ↦ XY S 0x012c
+example : parseAux digitsOnly [88, 89, 58, 105, 58, 51, 48, 48] = ok [88, 89, 83, 44, 1] := by decide
+-- "XY:B:s,1,2" ↦ XY B s 2 0 0 0 | 1 0 | 2 0
+example : parseAux digitsOnly [88, 89, 58, 66, 58, 115, 44, 49, 44, 50] = ok [88, 89, 66, 115, 2, 0, 0, 0, 1, 0, 2, 0] := by decide
+-- "XY:B:c" (the library's own rendering of an empty array) is an error, not a panic
+example : parseAux digitsOnly [88, 89, 58, 66, 58, 99] = err := by decide
+example : wfAux [88, 89, 66, 115, 2, 0, 0, 0, 1, 0, 2, 0] = true := by decide
+-- an aux block: XYC\x01  ZZZab\0  BBBc\x02\0\0\0\x07\x08
+example : parseAuxBam [88, 89, 67, 1, 90, 90, 90, 97, 98, 0, 66, 66, 66, 99, 2, 0, 0, 0, 7, 8] =
+    ok [[88, 89, 67, 1], [90, 90, 90, 97, 98], [66, 66, 66, 99, 2, 0, 0, 0, 7, 8]] := by decide
+-- truncated fixed-width value, array header, unknown array type, zero inside the tag: errors
+example : parseAuxBam [88, 89, 105, 1] = err := by decide
+example : parseAuxBam [88, 89, 66] = err := by decide
+example : parseAuxBam [88, 89] = ok [] := by decide
+example : parseAuxBam [88, 89, 66, 99, 1] = err := by decide
+example : parseAuxBam [88, 89, 66, 90, 8, 0, 0, 0] = err := by decide
+example : parseAuxBam [88, 0, 90, 1, 0] = err := by decide
+-- CIGAR operation types 11..15 (storable in BAM) go through End/Bin/IsValid
+example : Hts.Model.Coord.recordEnd false 100 [⟨0, 10⟩, ⟨13, 7⟩, ⟨2, 5⟩] = some 115 := by decide
+example : cigarIsValidGo [⟨5, 1⟩, ⟨4, 2⟩, ⟨0, 3⟩, ⟨4, 1⟩, ⟨5, 2⟩] 6 = ok true := by decide
+
+example : decodeIdx "itf8.Decode" itf8Width [0xff, 1, 2, 3, 4] = ok true := by decide
+example : decodeIdx "itf8.Decode" itf8Width [0xff, 1, 2, 3] = ok false := by decide
+example : streamRead "x" itf8Width 5 [0xe0, 1, 2, 3] = ok true := by decide
+
+-- "BAI\1", one reference, one bin (4681) with one chunk, one interval, no trailing count: 8+4+8+16+4+8 = 48 bytes
+example : readBAI ([66, 65, 73, 1, 1, 0, 0, 0, 1, 0, 0, 0, 0x49, 0x12, 0, 0, 1, 0, 0, 0] ++ List.replicate 16 0 ++
+    [1, 0, 0, 0] ++ List.replicate 8 0) = ok (some (1, 48)) := by decide
+example : readBAI [66, 65, 73, 1, 0xff, 0xff, 0xff, 0xff] = err := by decide
+
+example : (⟨0, []⟩ : RefTable).wf := by intro p hp; cases hp
+example : (addRef ⟨1, [([97], 0)]⟩ [97] false true true).isPanic = false := by decide
+-- "@HD\tV" : a field shorter than three bytes is an error of the field loop
+example : tagLine 2 (fun (st : Unit) _ _ => ok st) [64, 72, 68, 9, 86] () = err := by decide
+example : md5Field (List.replicate 34 48) = err := by decide
+
 end Hts.Props.C11
